@@ -1,6 +1,6 @@
 (* Pinned statements of C11 (generated once by tools/mkpins.py from coq/props/C11.v, then committed). *)
 From DV Require Import Model.Base Model.Parser Model.Header Model.Readers Model.Mutate Spec.NameSpec Spec.PacketSpec Spec.RecordSpec Spec.PlainSpec
-  Proofs.Hoare Proofs.WalkSkip Proofs.PlainWf Proofs.InsertSpec Proofs.DeleteInv Proofs.Totality Proofs.DeleteWalk props.C11.
+  Proofs.Hoare Proofs.WalkSkip Proofs.PlainWf Proofs.InsertSpec Proofs.DeleteInv Proofs.Totality Proofs.WalkInv Proofs.DeleteWalk props.C11.
 Check (C11_walk_terminates : forall (A : Type) (D : A -> bool) (l : list A),
   exists r, awalk D ((ndel D l + 1) * (length l + 1)) l 0 [] = Some r).
 Print Assumptions C11_walk_terminates.
@@ -37,3 +37,48 @@ Check (C11_delete_succeeds : forall v it qls qt lA lN lR r x,
   it_offset it = Some (rv_off r) -> it_name_end it = rv_name_end r -> it_offset_next it = rv_name_end r + 10 + rv_rdlen r ->
   exists s', m_delete (v, it) = (s', Ok tt)).
 Print Assumptions C11_delete_succeeds.
+Check (C11_cursor_restarts_from_section_start : forall v it qls qt lA lN lR sec, dinv v -> reading (pp_packet v) qls qt lA lN lR ->
+  it_offset it = None -> it_section it = sec -> sec = SAnswer \/ sec = SNameServers \/ sec = SAdditional ->
+  r_next_including_opt v it = Ok (match sec_list sec lA lN lR with [] => None | rx :: l' => Some (cur_on sec (fst rx) (length l')) end)).
+Print Assumptions C11_cursor_restarts_from_section_start.
+Check (C11_cursor_advances : forall v qls qt lA lN lR sec l1 rx l2, dinv v -> reading (pp_packet v) qls qt lA lN lR ->
+  sec = SAnswer \/ sec = SNameServers \/ sec = SAdditional -> sec_list sec lA lN lR = l1 ++ rx :: l2 ->
+  r_next_including_opt v (cur_on sec (fst rx) (length l2)) =
+  Ok (match l2 with [] => None | rx2 :: l3 => Some (cur_on sec (fst rx2) (length l3)) end)).
+Print Assumptions C11_cursor_advances.
+Check (C11_concrete_walk_refines_machine : forall sec, sec = SAnswer \/ sec = SNameServers \/ sec = SAdditional ->
+  forall (D : rec_view * rd_view -> bool) (dec : ppacket -> rrit -> bool),
+  (forall y, D y = true -> is_opt (fst y) = false) ->
+  (forall v qls qt lA lN lR rxp n, reading (pp_packet v) qls qt lA lN lR -> In rxp (sec_list sec lA lN lR) ->
+     dec v (cur_on sec (fst rxp) n) = D (unpl rxp)) ->
+  forall fuel v it qls qt lA lN lR i cs ys,
+    dinv v -> reading (pp_packet v) qls qt lA lN lR -> Cur sec it (sec_list sec lA lN lR) i -> Forall2 (yielded sec) cs ys ->
+    match awalk D fuel (map unpl (sec_list sec lA lN lR)) i ys with
+    | None => cwalk dec fuel v it cs = None
+    | Some (l', ys') =>
+      exists v' cs' lA' lN' lR', cwalk dec fuel v it cs = Some (v', cs') /\ dinv v' /\ reading (pp_packet v') qls qt lA' lN' lR' /\
+        map unpl (sec_list sec lA' lN' lR') = l' /\ other_sections_kept sec lA lN lR lA' lN' lR' /\ Forall2 (yielded sec) cs' ys'
+    end).
+Print Assumptions C11_concrete_walk_refines_machine.
+Check (C11_concrete_walk_exact : forall sec, sec = SAnswer \/ sec = SNameServers \/ sec = SAdditional ->
+  forall (D : rec_view * rd_view -> bool) (dec : ppacket -> rrit -> bool),
+  (forall y, D y = true -> is_opt (fst y) = false) ->
+  (forall v qls qt lA lN lR rxp n, reading (pp_packet v) qls qt lA lN lR -> In rxp (sec_list sec lA lN lR) ->
+     dec v (cur_on sec (fst rxp) n) = D (unpl rxp)) ->
+  forall v it qls qt lA lN lR,
+    dinv v -> reading (pp_packet v) qls qt lA lN lR -> it_offset it = None -> it_section it = sec ->
+    let l := map unpl (sec_list sec lA lN lR) in
+    exists v' cs lA' lN' lR' ys,
+      cwalk dec ((ndel D l + 1) * (length l + 1)) v it [] = Some (v', cs) /\ dinv v' /\ reading (pp_packet v') qls qt lA' lN' lR' /\
+      map unpl (sec_list sec lA' lN' lR') = filter (keep D) l /\ other_sections_kept sec lA lN lR lA' lN' lR' /\
+      Forall2 (yielded sec) cs ys /\ (forall y, In y (filter (keep D) l) -> In y ys) /\ (forall y, In y ys -> In y l)).
+Print Assumptions C11_concrete_walk_exact.
+Check (C11_delete_everything_but_opt : forall sec v it qls qt lA lN lR,
+  sec = SAnswer \/ sec = SNameServers \/ sec = SAdditional ->
+  dinv v -> reading (pp_packet v) qls qt lA lN lR -> it_offset it = None -> it_section it = sec ->
+  let l := map unpl (sec_list sec lA lN lR) in
+  exists v' cs lA' lN' lR',
+    cwalk dec_nonopt ((ndel D_nonopt_all l + 1) * (length l + 1)) v it [] = Some (v', cs) /\ dinv v' /\
+    reading (pp_packet v') qls qt lA' lN' lR' /\
+    map unpl (sec_list sec lA' lN' lR') = filter (fun y => is_opt (fst y)) l /\ other_sections_kept sec lA lN lR lA' lN' lR').
+Print Assumptions C11_delete_everything_but_opt.
